@@ -64,9 +64,13 @@ class error_999_visitor(pyx12.error_visitor.error_visitor):
             return val
         if width is not None:
             val = val[:width].ljust(width)
+        cleaned = val
         for term in (self.seg_term, self.ele_term, self.subele_term, self.repetition_term):
-            val = val.replace(term, ' ')
-        return val
+            cleaned = cleaned.replace(term, ' ')
+        if width is None and cleaned != val:
+            # a delimiter at either end would leave a blank there, which the map of this document refuses
+            cleaned = cleaned.strip(' ')
+        return cleaned
 
     def visit_root_pre(self, errh):
         """
